@@ -712,6 +712,11 @@ def scenario_deep(rec: Recorder, role: str, rnd: random.Random) -> None:
         f = _tlv_(tag, f)
     body = b"\x04\x00\x0a\x01\x00\x0a\x01\x00\x02\x01\x00\x02\x01\x00\x01\x01\x00" + f + b"\x30\x00"
     deep = _tlv_(0x30, b"\x02\x01" + bytes([len(units) + 1]) + _tlv_(0x63, body))
+    u_ = rnd.random()
+    if u_ < 0.25:     # other units the library may accept or refuse, but only in its own way: a message id of thousands of digits,
+        deep = sess._huge_id(rnd)
+    elif u_ < 0.4:    # a result code of 5-9 octets
+        deep = sess._huge_code(rnd)
     units.append((deep, {"k": "garbage", "id": 0, "valid": False, "dig": ""}))
     rec.stream([u[1] for u in units])
     stream = b"".join(u[0] for u in units)
